@@ -1906,6 +1906,12 @@ void DEVCONN_ICACHE_FLASH supla_esp_devconn__stop(void *ptr) {
   supla_espconn_disconnect(&devconn->ESPConn);
 
   supla_esp_srpc_free();
+
+  // Bytes staged for / received from the connection that is being closed
+  // must not reach the next one (disconnect_cb is not always delivered
+  // before the next connect callback).
+  devconn->esp_send_buffer_len = 0;
+  devconn->recvbuff_size = 0;
 }
 
 void DEVCONN_ICACHE_FLASH supla_esp_devconn_stop(void) {
